@@ -115,8 +115,9 @@ def isoformat(dt: datetime.date | datetime.time | datetime.timedelta) -> str:
     return _durationformat(dt)
 
 
-@compat.lru_cache(maxsize=100_000)
 def _durationformat(dt: datetime.timedelta) -> str:
+    # Not memoised: equal durations needn't share a text, a `pendulum.Duration` of one month,
+    #   of thirty days and a `timedelta` of thirty days are all equal (and hash alike).
     # A negative duration is written as the negated positive duration.
     if dt < datetime.timedelta(0):
         return f"-{_durationformat(-dt)}"
